@@ -1,0 +1,57 @@
+// Copyright (c) 2020 10X Genomics, Inc. All rights reserved.
+
+package syntax
+
+import "sort"
+
+// sortedKeys returns the keys of a map in sorted order.
+//
+// Go randomizes map iteration order.  Code which accumulates errors, picks
+// the first element satisfying some condition, or builds ordered output while
+// visiting the elements of a map must visit them in a repeatable order, so
+// that the same source produces the same messages and the same results from
+// one run to the next.
+func sortedKeys[V any](m map[string]V) []string {
+	if len(m) == 0 {
+		return nil
+	}
+	keys := make([]string, 0, len(m))
+	for k := range m {
+		keys = append(keys, k)
+	}
+	sort.Strings(keys)
+	return keys
+}
+
+// callLess is a total order on the calls which can appear together as keys
+// of one map: by ID, then by source location.
+func callLess(a, b *CallStm) bool {
+	if a == b {
+		return false
+	}
+	if a.Id != b.Id {
+		return a.Id < b.Id
+	}
+	if fa, fb := a.Node.Loc.File, b.Node.Loc.File; fa != nil && fb != nil &&
+		fa.FullPath != fb.FullPath {
+		return fa.FullPath < fb.FullPath
+	} else if (fa == nil) != (fb == nil) {
+		return fb == nil
+	}
+	return a.Node.Loc.Line < b.Node.Loc.Line
+}
+
+// sortedCalls returns the keys of a map keyed by call, in a repeatable order.
+func sortedCalls[V any](m map[*CallStm]V) []*CallStm {
+	if len(m) == 0 {
+		return nil
+	}
+	calls := make([]*CallStm, 0, len(m))
+	for c := range m {
+		calls = append(calls, c)
+	}
+	sort.Slice(calls, func(i, j int) bool {
+		return callLess(calls[i], calls[j])
+	})
+	return calls
+}
